@@ -8,6 +8,14 @@ CLAIMS = {
    text="TLC checks the coherence laws (equivalence, trichotomy, unions, transitivity, prefix order, key-order insensitivity, u* agreement) on the specification's Equals/Compare over every pair and triple of a universe dense in near-equal values; every pair is then replayed through the real evaluator for all ten operators under several monotone number lifts, so the laws transfer to the code on that universe; seeded random pairs/triples recorded from the real evaluator are validated by TLC against the same operators.",
    note="Trusted: TLC, the harness renderer (value -> source text), monotone zero-preserving number lifts, code-point-sorted alphabet. NaN excluded as the property states. Random part is sampled, not exhaustive.",
    technique="TLA+ spec (BlotsOrder) model-checked with TLC; TLC-enumerated cases replayed into the real evaluator; recorded traces validated by TLC (Trace_C12)"),
+ "C07": dict(category="model_checking", design_ref="5 C07",
+   text="SyntaxRich.tla defines whole-language trees, a fully parenthesising and a reference-minimal printer and the chain-complete tree generator (every node kind as child of every node kind at every operand position); TLC enumerates the trees (one state each) and emits both texts. The real parser must map the full text to exactly the model tree and the minimal text to the same tree (binding the reference parenthesisation rule to the grammar); the library formatter, the WASM driver and the CLI then format each program at several widths, as expression, output declaration and inside a multi-statement program, and the re-parsed statement sequence must be identical. Random operator expressions formatted for real are tokenised and judged by ParseRef (independent precedence table); corpus programs go through every driver and width (Trace_C07).",
+   note="Trusted: TLC, AST projection, PartialEq of the repository AST (ignores spans), the WASM shim, the operator-fragment tokenizer. Comments are C09's subject. Widths sampled {1,20,40,default} quick / 10 widths thorough.",
+   technique="TLA+ spec (SyntaxRich tree generator + reference printers) enumerated by TLC; cases replayed into the real parser, formatter, WASM and CLI drivers; recorded formatter runs validated by TLC against ParseRef (Trace_C07)"),
+ "C08": dict(category="model_checking", design_ref="5 C08",
+   text="Same TLC-enumerated chain-complete trees, drivers (library, WASM format_blots, CLI --format) and widths as C07; the formatter's output is formatted a second time with the same driver and width and must be returned unchanged as text (including blank-line spacing of the multi-statement programs); corpus programs likewise (Trace_C07, verdict bad8). Comment placement and 0-5 blank lines are exercised by the C09 comment state machine cases, whose second pass is also compared.",
+   note="Trusted: TLC, WASM shim. Text equality is exact string equality. Widths sampled.",
+   technique="TLA+ spec (SyntaxRich) enumerated by TLC; cases replayed twice through the real formatter drivers; recorded runs validated by TLC (Trace_C07, idempotent flag)"),
  "C10": dict(category="model_checking", design_ref="5 C10",
    text="The precedence table of the property is data in Syntax.tla with a reference precedence-climbing parser and two printers; TLC checks ParseRef(PrintFull(t)) = t and ParseRef(PrintMin(t)) = t on every enumerated tree (design check) and emits every flat token string (all operator pairs, triples, prefix/postfix decorations), every admitted layout decoration of every gap (and gap pair) of 18 templates, redundant-parenthesis / trailing-comma variants and every reserved word extended by a suffix/prefix; the real parser must produce exactly the reference tree (flat and fully parenthesised), the same program under every layout, and bound names must evaluate in 19 positions. Random deep token strings parsed by the real parser are validated by TLC against ParseRef.",
    note="Trusted: TLC, the token renderer and AST projection in the harness. The table is independent of precedence.rs (which feeds both the repo's parser and printer). Layout admissibility (Admit) is a measured subset of what grammar.pest admits.",
